@@ -62,3 +62,30 @@ V('C02', 'neg-rename-compare-restructured', 'edb/schema/delta.py', 'edb.schema.d
             return None''', '''        if orig_ref.module == ref.module and orig_ref.name == ref.name:
             return None
         return astnode(new_name=ref)  # type: ignore''', None)
+
+V('C02', 'revert-remove-while-iterating', 'edb/schema/inheriting.py', 'edb.schema.inheriting.RebaseInheritingObject._compute_new_bases',
+  '        for b in list(bases):\n            if b.get_name(schema) in removed_bases:', '        for b in bases:\n            if b.get_name(schema) in removed_bases:', 'C02.R5', '_compute_new_bases:for-bases')
+V('C02', 'stale-base-index', 'edb/schema/inheriting.py', 'edb.schema.inheriting.RebaseInheritingObject._compute_new_bases',
+  '''            ]
+            index = {b.get_name(schema): i for i, b in enumerate(bases)}
+''', '''            ]
+''', 'C02.R5', '_compute_new_bases:index-fresh')
+V('C02', 'empty-alter-not-owned', 'edb/schema/referencing.py', 'edb.schema.referencing.AlterReferencedInheritingObject._cmd_tree_from_ast',
+  '''            and (
+                not cmd.get_subcommands()
+                or not all(
+                    (
+                        isinstance(scmd, sd.AlterObjectProperty)
+                        and scmd.new_value is None
+                    )
+                    for scmd in cmd.get_subcommands()
+                )
+            )''', '''            and not all(
+                (
+                    isinstance(scmd, sd.AlterObjectProperty)
+                    and scmd.new_value is None
+                )
+                for scmd in cmd.get_subcommands()
+            )''', 'C02.R5', 'empty-alter-owns')
+V('C02', 'inherited-status-one-sided', 'edb/schema/objects.py', 'edb.schema.objects.InheritingObject.compare_obj_field_value',
+  '        if (fname in our_ifs) != (fname in their_ifs):', '        if fname in their_ifs - our_ifs:', 'C02.R5', 'inherited-status-symmetric')
